@@ -91,6 +91,7 @@ int  sched_current_task();                  // 0 = main
 bool sched_in_phase();
 const SchedStats &sched_stats();
 void sched_reset_stats();
+void sched_set_switch_hook(void (*hook)()); // called on the thread that gives the token away, before the hand-off
 
 // site ids for simulator-originated yield points (library H1 sites use 1..15)
 enum { SITE_OP_BEGIN = 16, SITE_OP_END = 17, SITE_ALLOC = 18, SITE_FREE = 19, SITE_MMAP = 20, SITE_MPROTECT = 21, SITE_MUNMAP = 22, SITE_TASK_END = 23, SITE_PHASE_START = 24 };
